@@ -488,6 +488,29 @@ class Facts:
         v.by_path = {f.path: f for f in v.fns}
         v._cg = None
         v.orig = self
+        # result summaries: a crate function every return of which builds the same Result/Option variant (`fn unsupported_zip_error<T>(..)
+        # -> ZipResult<T> { Err(..) }`) is known to return that variant at each call site (used by the path engine: `helper()?` then
+        # takes the error edge instead of both)
+        always = {}
+        for f in v.fns:
+            vs = set()
+            for bi, b in enumerate(f.blocks):
+                if b.get("cleanup"):
+                    continue
+                for s in b["stmts"]:
+                    if s["k"] == "assign" and s["place"]["l"] == 0 and not s["place"]["p"]:
+                        rv = s["rv"]
+                        vs.add(rv.get("variant") if rv["k"] == "agg" and rv.get("ak") == "adt" and (rv.get("adt") or "").startswith(("std::result::Result", "std::option::Option")) else "?")
+                t = b["term"]
+                if t and t["k"] == "call" and t["dest"]["l"] == 0:
+                    vs.add("?")
+            if len(vs) == 1 and "?" not in vs:
+                always[f.path] = vs.pop()
+        for f in v.fns:
+            for bi, t in f.calls():
+                tg = t.get("resolved") or t.get("callee")
+                if tg in always:
+                    t["ret_variant"] = always[tg]
         v.inlined_pairs = pairs
         return v
 
